@@ -594,6 +594,25 @@ def r05_10(ctx) -> None:
                       + ("without the call's `algorithms` argument" if not ok_arg else "although the caller passed a registry and no `algorithms`: the caller's allow-list is dropped"),
                       "Registry(algorithms=algorithms) under `if algorithms` / `if registry is None`", construct=f"registry construction in {fn.short}")
     ctx.count("R05.10", n, 9, "registry constructions in operation-reachable functions")
+    # ... and the caller's registry is never replaced by ANYTHING (the default registry included) unless it is None or `algorithms` is given
+    m = 0
+    for fn in scope:
+        rp = [p_ for p_ in fn.params if p_ == "registry"]
+        if not rp or fn.name == "<module>":
+            continue
+        cfg = cfg_of(fn)
+        for node in fn_nodes(fn):
+            if not (isinstance(node, ast.Assign) and any(isinstance(t_, ast.Name) and t_.id == "registry" for t_ in node.targets)):
+                continue
+            m += 1
+            sn = cfg.node_of(node)
+            tests = [t for t in cfg.nodes if t.kind == "test" and t.ast is not None and (
+                norm(t.ast) == "algorithms" or (isinstance(t.ast, ast.Compare) and len(t.ast.ops) == 1 and isinstance(t.ast.ops[0], ast.Is) and is_const(t.ast.comparators[0], None)
+                                                and norm(t.ast.left) == "registry"))]
+            ok_ctl = bool(tests) and sn is not None and sn not in cfg.reachable(cfg.entry, edge_filter=lambda x, y, lab, _t=tests: not (x in _t and lab == "true"))
+            ctx.check(ok_ctl, "R05.10", fn, node, f"{fn.short} :: {norm(node)[:50]}", f"`{norm(node)[:60]}` can replace a registry the caller passed (it is not controlled by `registry is None` "
+                      "or `if algorithms`): the caller's allow-list is dropped", "under `if algorithms` / `if registry is None`", construct=f"registry re-bound in {fn.short}")
+    ctx.count("R05.10/rebind", m, 12, "re-bindings of the registry parameter in operation-reachable functions")
 
 
 def r05_12(ctx) -> None:
